@@ -18,7 +18,10 @@
                completion grow, 6 more than 16 consecutive non-advancing records tolerated,
                7 datagram handshake buffer above bound, 8 more reassembly buffers than
                maxHandshakeFragments, 9 reassembly buffer bytes above bound, 10 call stack grows
-               with the input, 11 datagram raw buffer above bound. *)
+               with the input (datagram stack: more than one frame of readRecordOrCCS or more
+               than rdMax of readDatagram at a ReadFrom call), 11 datagram raw buffer above bound.
+   Every finding of the datagram stack (K12 .. K15) is repaired in the library: there is no known
+   class, the behaviour of the code before any of those fixes is an ordinary violation. *)
 From V Require Export Model.Codec Model.Kx Model.ConnT Model.Fragment Model.ConnD.
 Open Scope nat_scope.
 
@@ -223,18 +226,16 @@ Definition dstep_dgram (fresh : nat -> bool) (c : dconn unit) (d : dgram) : dcon
   fst (fst (drun unit d_msg tr_ccs tr_dec fresh (fun _ => true) true
                  (4 * (match d with FromPeer b => length b | Foreign => 0 end) + 8) c [d])).
 
-(* the result also carries the deepest retry recursion of the model (d_frames): the endpoint asks
-   for the next datagram in the state each event leaves *)
-Fixpoint trace_d (fresh : list bool) (c : dconn unit) (evs : list dev) (obs : list dobs) (deep : nat) : bool * nat :=
+(* the endpoint asks for the next datagram in the state each event leaves *)
+Fixpoint trace_d (fresh : list bool) (c : dconn unit) (evs : list dev) (obs : list dobs) : bool :=
   match evs, obs with
   | e :: et, o :: ot =>
       (* the replay verdicts of this datagram's records, counted from the first record the
          endpoint takes from it (a warning alert discards the rest of its datagram) *)
       let c' := dstep_dgram (fun i => nth (i - d_n c) (dev_fresh e) true) c (dev_dgram (d_epoch c) e) in
-      let '(ok, dp) := trace_d fresh c' et ot (Nat.max deep (d_frames c')) in
-      (dobs_agree o c' && ok, dp)
-  | [], [] => (true, deep)
-  | _, _ => (false, deep)
+      dobs_agree o c' && trace_d fresh c' et ot
+  | [], [] => true
+  | _, _ => false
   end.
 
 Definition d_start (w : want) (vers_known cipher dwell : bool) : dconn unit :=
@@ -253,9 +254,9 @@ Definition mismatch (c : case) : bool :=
   | TraceT w vk ci evs obs => negb (trace_t (t_start w vk ci) evs obs)
   | TraceD w vk ci dw evs obs max_depth max_frames =>
       (* frames on the stack at a ReadFrom call: one of readDatagram (it loops over datagrams from
-         other addresses); of readRecordOrCCS one more than the deepest retry recursion *)
-      let '(ok, deep) := trace_d [] (d_start w vk ci dw) evs obs 0 in
-      negb ok || negb (Nat.eqb max_depth 1) || negb (Nat.eqb max_frames (S deep))
+         other addresses) and one of readRecordOrCCS (a warning alert is counted and its loop goes
+         on: the model has no recursion) *)
+      negb (trace_d [] (d_start w vk ci dw) evs obs) || negb (Nat.eqb max_depth 1) || negb (Nat.eqb max_frames 1)
   | EpT _ _ _ _ _ _ _ _ => false
   | EpD _ _ _ _ _ _ _ _ _ _ => false
   end.
@@ -270,8 +271,8 @@ Definition rawCapMax : nat := 9 * (18 * 1024 + 5 + 512).
 Definition handMaxD : nat := 12 + 64 * 1024 - 1 + 18 * 1024.
 Definition stackMax : nat := 96.    (* stream: frames on the stack at a transport read (retry recursion included) *)
 Definition rdMax : nat := 4.        (* datagram: frames of readDatagram on the stack at a ReadFrom call *)
-Definition rrMax : nat := 18.       (* datagram: frames of readRecordOrCCS on the stack at a ReadFrom call: the first and
-                                       at most maxUselessRecords + 1 entered through retryReadRecord *)
+Definition rrMax : nat := 1.        (* datagram: frames of readRecordOrCCS on the stack at a ReadFrom call: the call depth of the
+                                       record reader does not depend on the input (before bfc7028: one more per warning alert) *)
 
 Definition running_after_stall (obs : list (option (bool * nat * nat))) : bool :=
   (* some live observation shows retryCount above 16 *)
